@@ -22,6 +22,26 @@ func init() {
 
 func runC15(c *Ctx) {
 	p := c.P
+	// every stage slot is visited exactly once per sweep
+	{
+		n := 0
+		for _, fn := range p.SrcFuncs(func(pp string) bool { return pp == pkgPath("queueing") }) {
+			if r := fn.Signature.Recv(); r == nil || !strings.Contains(r.Type().String(), "Pipeline") {
+				continue
+			}
+			if fn.Origin() != nil {
+				continue // instantiations repeat the generic body
+			}
+			checked, bad := loopIndexFindings(fn)
+			if checked == 0 {
+				continue
+			}
+			n += checked
+			c.Check(len(bad) == 0, "single-visit", SSAFuncKey(fn), fn.Pos(), "slot indices step by one ("+itoa(checked)+" loops)",
+				strings.Join(bad, "; ")+": an item swapped into an already visited slot is processed a second time in the same tick (its remaining cycles drop twice, it leaves a tick early)")
+		}
+		c.Check(n >= 2, "single-visit", "instances", 0, "index loops found", "fewer than two slot-visiting loops found in the pipeline")
+	}
 	dom := []int{0, 1, 2}
 	stageF := c.field("anchors", "queueing", "PipelineStage", "Stage")
 	clF := c.field("anchors", "queueing", "PipelineStage", "CycleLeft")
